@@ -46,6 +46,7 @@ type world struct {
 const nKeys = 24
 
 var (
+	valPriv []keypair.PrivateKey
 	valPub  []keypair.PublicKey
 	valAddr []common.Address
 	valHex  []string
@@ -57,6 +58,7 @@ func init() {
 		d := sha256.Sum256([]byte(fmt.Sprintf("polyverif validator key %d", i)))
 		priv := ec.ConstructPrivateKey(d[:], elliptic.P256())
 		pub := &ec.PublicKey{Algorithm: ec.ECDSA, PublicKey: &priv.PublicKey}
+		valPriv = append(valPriv, &ec.PrivateKey{Algorithm: ec.ECDSA, PrivateKey: priv})
 		valPub = append(valPub, pub)
 		valAddr = append(valAddr, types.AddressFromPubKey(pub))
 		valHex = append(valHex, hex.EncodeToString(keypair.SerializePublicKey(pub)))
@@ -141,10 +143,14 @@ func (w *world) signerAddrs(csv string) []common.Address {
 }
 
 func mkTx(nonce uint32, contract common.Address, method string, args []byte) *types.Transaction {
+	return mkTxChain(0, nonce, contract, method, args)
+}
+
+func mkTxChain(chainID uint64, nonce uint32, contract common.Address, method string, args []byte) *types.Transaction {
 	inv := nstates.ContractInvokeParam{Address: contract, Method: method, Args: args}
 	sink := common.NewZeroCopySink(nil)
 	inv.Serialization(sink)
-	tx := &types.Transaction{Version: 0, TxType: types.Invoke, Nonce: nonce, ChainID: 0, Payload: &payload.InvokeCode{Code: sink.Bytes()}}
+	tx := &types.Transaction{Version: 0, TxType: types.Invoke, Nonce: nonce, ChainID: chainID, Payload: &payload.InvokeCode{Code: sink.Bytes()}}
 	s2 := common.NewZeroCopySink(nil)
 	if err := tx.Serialization(s2); err != nil {
 		panic(err)
